@@ -5,6 +5,7 @@ go 1.23.0
 require (
 	k8s.io/api v0.0.0-20241206182100-8b216f34d7ed
 	k8s.io/apimachinery v0.0.0-20241206181643-8c60292e48e4
+	k8s.io/apiserver v0.0.0-20241206185754-3658357fea9f
 	k8s.io/client-go v0.0.0-20241206182637-8e21410d16a5
 	k8s.io/component-base v0.0.0-20241206184758-96018783480f
 	k8s.io/klog/v2 v2.130.1
@@ -89,7 +90,6 @@ require (
 	gopkg.in/inf.v0 v0.9.1 // indirect
 	gopkg.in/natefinch/lumberjack.v2 v2.2.1 // indirect
 	gopkg.in/yaml.v3 v3.0.1 // indirect
-	k8s.io/apiserver v0.0.0-20241206185754-3658357fea9f // indirect
 	k8s.io/kms v0.0.0-20241206185237-ab1750fa1ba2 // indirect
 	k8s.io/kube-openapi v0.0.0-20241105132330-32ad38e42d3f // indirect
 	k8s.io/utils v0.0.0-20241104100929-3ea5e8cea738 // indirect
